@@ -1,6 +1,7 @@
 package props
 
 import (
+	"crypto/ed25519"
 	"encoding/json"
 	"fmt"
 	"strings"
@@ -10,6 +11,7 @@ import (
 	"github.com/lidofinance/dc4bc/storage"
 
 	"verifharness/oracle"
+	"verifharness/sched"
 	"verifharness/world"
 )
 
@@ -135,6 +137,12 @@ func runC10(c *Ctx, n, t int, seed uint64) {
 			idx[k] = m
 		}
 	}
+	var openers []storage.Message
+	for _, m := range all {
+		if m.Event == EvInit {
+			openers = append(openers, m)
+		}
+	}
 	done := map[string]bool{}
 	nameIdx := map[string]int{}
 	for _, nd := range w.Nodes {
@@ -229,6 +237,48 @@ func runC10(c *Ctx, n, t int, seed uint64) {
 					c.Violate("C10/cross-round-replay-accepted:"+g.Event, fmt.Sprintf("%s's genuine %s of the other round, re-posted under this round's id, was accepted=%v by %s in %s (changed %v)", g.SenderAddr, g.Event, err == nil, nd.Name, stateName, diff), baseWit(map[string]interface{}{"replayed_offset": cp.Offset}))
 				}
 			}
+			// (b3) g re-posted under round identifiers that differ from its own only by whitespace, case or
+			// padding: they name no round, so nothing is registered there and nothing existing may move
+			for _, rid := range roundIDLookalikes(g.DkgRoundID) {
+				replay := *g
+				replay.DkgRoundID = rid
+				err, diff, pan := applyAt(w, m, v, replay)
+				c.Eval(1)
+				c.Distinct(fmt.Sprintf("lookalike-round|%s|%s", g.Event, stateName))
+				c.Add("lookalike_round_replays_tried", 1)
+				if pan == nil && (err == nil || len(diff) > 0) {
+					c.Violate("C10/replay-under-lookalike-round-id-accepted:"+g.Event, fmt.Sprintf("%s's genuine %s re-posted under round id %q was accepted=%v by %s in %s (changed %v)", g.SenderAddr, g.Event, rid, err == nil, nd.Name, stateName, diff), baseWit(map[string]interface{}{"round_id": rid}))
+				}
+			}
+			// (b4) the (unauthenticated) proposals that opened the two rounds, genuine and with every key
+			// replaced by a stranger's, re-posted under such identifiers: they may open a round of that
+			// name, but every existing round and operation stays as it is
+			for _, op := range openers {
+				for _, rid := range roundIDLookalikes(op.DkgRoundID) {
+					for fi, msg := range []storage.Message{op, strangerProposal(op)} {
+						msg.DkgRoundID = rid
+						nd.Mem.Restore(m.Snaps[v])
+						before := m.Snaps[v]
+						var pan interface{}
+						func() {
+							defer func() { pan = recover() }()
+							_ = nd.Svc.ProcessMessage(msg)
+						}()
+						after := nd.Mem.Snapshot()
+						w.Board.Truncate(len(all))
+						c.Eval(1)
+						c.Distinct(fmt.Sprintf("lookalike-opening|%d|%s", fi, stateName))
+						c.Add("lookalike_round_openings_tried", 1)
+						if pan != nil {
+							c.Add("panics_seen_(judged_by_C18)", 1)
+							continue
+						}
+						if pd := protectedDiff(before, after, rid); len(pd) > 0 {
+							c.Violate("C10/opening-proposal-under-lookalike-round-id-changed-existing-round", fmt.Sprintf("an opening proposal (%s) posted under round id %q changed %v on %s (round %s was in %s)", []string{"the genuine one re-posted", "a stranger's, with her own keys"}[fi], rid, pd, nd.Name, trunc(g.DkgRoundID, 8), stateName), baseWit(map[string]interface{}{"round_id": rid, "forged_keys": fi == 1}))
+						}
+					}
+				}
+			}
 			// (b2) g re-posted under every other event name
 			for _, ev := range allEvents {
 				if ev == g.Event {
@@ -254,4 +304,30 @@ func runC10(c *Ctx, n, t int, seed uint64) {
 		}
 	}
 	c.Sample(map[string]interface{}{"n": n, "t": t, "board_len": len(all), "moments": len(rec.Moments), "pairs": len(done)})
+}
+
+// roundIDLookalikes are identifiers a careless normalisation would fold onto id.
+func roundIDLookalikes(id string) []string {
+	return []string{id + " ", id + "\n", " " + id, "\t" + id + "\r\n", strings.ToUpper(id), id + "\x00", "0x" + id}
+}
+
+// strangerProposal is the opening proposal with every participant's keys replaced by one stranger's.
+func strangerProposal(op storage.Message) storage.Message {
+	var v map[string]interface{}
+	if json.Unmarshal(op.Data, &v) != nil {
+		return op
+	}
+	pub, _, _ := ed25519.GenerateKey(sched.Derive(7, 7))
+	if ps, ok := v["Participants"].([]interface{}); ok {
+		for _, p := range ps {
+			if pm, ok := p.(map[string]interface{}); ok {
+				pm["PubKey"] = []byte(pub)
+			}
+		}
+	}
+	out := op
+	out.Data, _ = json.Marshal(v)
+	out.SenderAddr = "stranger"
+	out.Signature = []byte("none")
+	return out
 }
